@@ -431,6 +431,70 @@ def layoutErrs (x : Info) : Nat → Nat → List String
     | some (.rtarray e) => (if x.hasDeco t 6 then [] else [s!"runtime array %{t}: missing ArrayStride"]) ++ layoutErrs x fuel e
     | _ => []
 
+/-- `(return type, parameter types)` of an OpTypeFunction id. -/
+def funcSig (x : Info) (ft : Nat) : Option (Nat × List Nat) :=
+  match lookupL x.defs ft with
+  | some i => if i.op == 33 then some (i.ws.getD 1 0, i.ws.toList.drop 2) else none
+  | none => none
+
+/-- Function signatures (SPIR-V §3.32.9 / universal validation rules): OpFunction's result type is the return type of its
+function type; its OpFunctionParameters have exactly the function type's parameter types, in order; OpFunctionCall's result
+type and argument types are those of the callee's function type; OpReturnValue returns a value of the function's return
+type and OpReturn occurs only in a function returning void. -/
+def signatureErrs (x : Info) (insts : List Inst) : List String := Id.run do
+  let mut errs : List String := []
+  let mut cur : Option (Nat × Nat × List Nat) := none     -- function id, return type, parameter types still expected
+  let mut inBody := false
+  for i in insts do
+    match i.op with
+    | 54 =>
+      let rt := i.ws.getD 0 0
+      match funcSig x (i.ws.getD 3 0) with
+      | none => errs := s!"OpFunction %{i.ws.getD 1 0}: its Function Type is not an OpTypeFunction" :: errs; cur := some (i.ws.getD 1 0, rt, [])
+      | some (r, ps) =>
+        if r != rt then errs := s!"OpFunction %{i.ws.getD 1 0}: Result Type %{rt} is not the Return Type %{r} of its Function Type" :: errs
+        cur := some (i.ws.getD 1 0, rt, ps)
+      inBody := false
+    | 55 =>
+      match cur with
+      | some (f, rt, p :: ps) =>
+        if p != i.ws.getD 0 0 then errs := s!"function %{f}: OpFunctionParameter of type %{i.ws.getD 0 0} where the Function Type has %{p}" :: errs
+        cur := some (f, rt, ps)
+      | some (f, _, []) => errs := s!"function %{f}: more OpFunctionParameters than the Function Type has parameters" :: errs
+      | none => pure ()
+    | 248 =>
+      if !inBody then
+        match cur with
+        | some (f, _, _ :: _) => errs := s!"function %{f}: fewer OpFunctionParameters than the Function Type has parameters" :: errs
+        | _ => pure ()
+      inBody := true
+    | 56 => cur := none
+    | 253 =>
+      match cur with
+      | some (f, rt, _) => if x.ty rt != some .void then errs := s!"function %{f}: OpReturn in a function whose return type is not void" :: errs
+      | none => pure ()
+    | 254 =>
+      match cur with
+      | some (f, rt, _) =>
+        if x.tyOfVal (i.ws.getD 0 0) != some rt then errs := s!"function %{f}: OpReturnValue of a value whose type is not the function's return type" :: errs
+      | none => pure ()
+    | 57 =>
+      let callee := i.ws.getD 2 0
+      match lookupL x.defs callee with
+      | some d =>
+        if d.op != 54 then errs := s!"OpFunctionCall: %{callee} is not a function" :: errs else
+        match funcSig x (d.ws.getD 3 0) with
+        | some (r, ps) =>
+          if r != i.ws.getD 0 0 then errs := s!"OpFunctionCall of %{callee}: Result Type is not the callee's return type" :: errs
+          let args := i.ws.toList.drop 3
+          if args.length != ps.length then errs := s!"OpFunctionCall of %{callee}: {args.length} arguments for {ps.length} parameters" :: errs
+          else if (args.zip ps).any (fun ap => x.tyOfVal ap.1 != some ap.2) then
+            errs := s!"OpFunctionCall of %{callee}: an argument's type is not the parameter's type" :: errs
+        | none => pure ()
+      | none => errs := s!"OpFunctionCall: callee %{callee} is not defined" :: errs
+    | _ => pure ()
+  return errs.reverse
+
 def validate (b : Bin) (expectVersion : Nat) : List String := Id.run do
   let mut errs : List String := []
   let x := gather b
@@ -491,6 +555,7 @@ def validate (b : Bin) (expectVersion : Nat) : List String := Id.run do
   let globalIds := seenG ++ fnIds
   for f in fns do
     errs := (checkFunction x globalIds f).reverse ++ errs
+  errs := (signatureErrs x fnInsts).reverse ++ errs
   -- entry points
   let eps := b.insts.filter (·.op == 15)
   for e in eps do
